@@ -112,8 +112,9 @@ Simple(bundle)     == Len(bundle) = 1 /\ Len(bundle[1].vals) <= 1 /\ ~IsSchema(b
 \* Schema changes are expensive in the engine (RenameColumn ~50-100 ms): a bundle with RenameColumn
 \* only starts a history, one with ModifyColumn starts it or follows a Simple bundle, and a bundle
 \* with a schema change is only followed by single actions of the reduced alphabet.
-Bundles(cfg, obs, prev, room) ==
-  LET singles == {<<a>> : a \in Single(cfg, obs)}
+\* late: from the third bundle of a history on, single actions come from the reduced alphabet.
+Bundles(cfg, obs, prev, room, late) ==
+  LET singles == {<<a>> : a \in IF late THEN Red(cfg, obs) ELSE Single(cfg, obs)}
       pairs   == IF room < 2 THEN {}
                  ELSE UNION {{<<a1, a2>> : a2 \in Red(cfg, RefAfter(cfg, obs, <<a1>>))} : a1 \in First(cfg, obs)} \cup
                       SchemaPairs(cfg, obs)
@@ -137,7 +138,7 @@ Init == /\ cfg \in Configs
 
 Next ==
   /\ Len(hist) < Depth /\ acts < MaxActs
-  /\ \E bundle \in Bundles(cfg, obs, IF hist = <<>> THEN <<>> ELSE hist[Len(hist)], MaxActs - acts) :
+  /\ \E bundle \in Bundles(cfg, obs, IF hist = <<>> THEN <<>> ELSE hist[Len(hist)], MaxActs - acts, Len(hist) >= 2) :
        /\ obs' = RefAfter(cfg, obs, bundle)
        /\ sch' = <<(sch[1] + Parity(bundle, "Ren")) % 2, (sch[2] + Parity(bundle, "Mod")) % 2>>
        /\ hist' = Append(hist, bundle)
